@@ -24,6 +24,8 @@ pub assume_specification [std::time::Instant::now] () -> std::time::Instant;
 pub assume_specification [std::time::Instant::elapsed] (_0: &std::time::Instant) -> std::time::Duration;
 pub assume_specification [std::time::Duration::as_secs_f64] (_0: &std::time::Duration) -> f64;
 
+pub assume_specification<T: PartialEq> [<[T]>::contains] (s: &[T], x: &T) -> (r: bool)
+    ensures <T as PartialEqSpec>::obeys_eq_spec() ==> (r <==> exists|i: int| 0 <= i < s@.len() && (#[trigger] s@[i]).eq_spec(x));
 // a Vec of non-zero-sized elements holds at most isize::MAX elements (std allocation invariant; ASSUMED)
 pub axiom fn axiom_vec_len_bound<T>(v: &Vec<T>) ensures v@.len() <= isize::MAX as nat;
 pub assume_specification<T> [<[T]>::reverse] (s: &mut [T])
@@ -296,8 +298,12 @@ pub open spec fn steer_spec<S: State, SP: StateSpace<StateType = S>>(sp: &SP, ne
 
 // ------------------------------------------------------------------ Planner trait: property-level contracts
 #[verifier::opaque]
+pub open spec fn space_samples_in_bounds<SP: StateSpace>(sp: &SP) -> bool {
+    forall|s: &SP::StateType| #[trigger] sp.sample_set(s) ==> sp.in_bounds_spec(s)
+}
+#[verifier::opaque]
 pub open spec fn samples_in_bounds<S: State, SP: StateSpace<StateType = S>, G: GoalSampleableRegion<S>>(pd: &ProblemDefinition<S, SP, G>) -> bool {
-    &&& forall|s: &S| #[trigger] pd.space.sample_set(s) ==> pd.space.in_bounds_spec(s)
+    &&& space_samples_in_bounds(&*pd.space)
     &&& forall|s: &S| #[trigger] pd.goal.goal_sample_set(s) ==> pd.space.in_bounds_spec(s)
 }
 
@@ -397,4 +403,8 @@ pub proof fn lemma_steer_in_bounds<S: State, SP: StateSpace<StateType = S>>(sp: 
 pub proof fn lemma_sample_in_bounds<S: State, SP: StateSpace<StateType = S>, G: GoalSampleableRegion<S>>(pd: &ProblemDefinition<S, SP, G>, q: &S)
     requires samples_in_bounds(pd), pd.space.sample_set(q) || pd.goal.goal_sample_set(q)
     ensures pd.space.in_bounds_spec(q)
-{ reveal(samples_in_bounds); }
+{ reveal(samples_in_bounds); reveal(space_samples_in_bounds); }
+pub proof fn lemma_space_sample_in_bounds<SP: StateSpace>(sp: &SP, q: &SP::StateType)
+    requires space_samples_in_bounds(sp), sp.sample_set(q)
+    ensures sp.in_bounds_spec(q)
+{ reveal(space_samples_in_bounds); }
